@@ -38,6 +38,9 @@ pub mod cfg {
     pub const CODE_SYNCS_BEFORE_DROP: bool = true;
     /// WAL on-disk format: 2 = entry checksum over len|timestamp|data, empty entry rejected
     pub const CODE_WAL_FORMAT: u8 = 2;
+    /// CrashSimulator::crashed_nodes / recovering_nodes: true = sorted by node id (3012c3c),
+    /// false = HashMap iteration order (the pinned code); sent to the C20 model with every `RUN dst`
+    pub const CODE_DST_SORTS_NODES: bool = true;
     /// segment DeltaIterator: true = error when fewer records than record_count are present
     pub const CODE_SEGMENT_STRICT_COUNT: bool = true;
 
